@@ -1,6 +1,6 @@
 (** C17 - the outcome does not depend on how torrents and directories are presented.  Statements only. *)
 From TB Require Import Base Decimal BencodeModel TorrentModel TorrentProofs PathModel FsModel SolverModel FinderModel RunModel
-                       SolverProofs RunProofs FsProofs FaultProofs PreludeProofs TableProofs FinderProofs SearchProofs PresentProofs Generated GeneratedObligations.
+                       SolverProofs RunProofs FsProofs FaultProofs PreludeProofs TableProofs FinderProofs SearchProofs PresentProofs Generated GeneratedObligations GlueProofs.
 From Coq Require Import Permutation Sorted.
 Local Open Scope N_scope.
 
@@ -38,8 +38,16 @@ Theorem C17_more_candidates_monotone H hash c pre combo : picks combo c ->
   beq (H (concat (map snd (pre ++ combo)))) hash = true -> find_combo H hash c pre <> None.
 Proof. exact (find_combo_complete H hash c pre combo). Qed.
 
+(** Whatever is presented - duplicates, any order, documents that do not load - the list the run
+    works on consists of torrents satisfying the loader's guarantees and names every info-hash
+    once: the first two premises of the whole-run theorems ([run_setup]). *)
+Theorem C17_presented_list_ok H xs : Forall (fun x => len x <= u64max) xs ->
+  Forall torrent_ok (distinct_torrents (loaded H xs)) /\ NoDup (map t_info_hash (distinct_torrents (loaded H xs))).
+Proof. exact (presented_list_ok H xs). Qed.
+
 Print Assumptions C17_distinct_torrents.
 Print Assumptions C17_torrent_list_presentation.
 Print Assumptions C17_candidates_order_independent.
 Print Assumptions C17_export_first_for_every_order.
 Print Assumptions C17_more_candidates_monotone.
+Print Assumptions C17_presented_list_ok.
